@@ -59,7 +59,9 @@ func famEnabled(f string) bool {
 
 func gen(g *fw.GenCtx) {
 	counts := map[string]int{}
-	mk := func(kind string, max, hard int) *emitter { return &emitter{g: g, kind: kind, max: max, hard: hard, n: counts} }
+	mk := func(kind string, max, hard int) *emitter {
+		return &emitter{g: g, kind: kind, max: max, hard: hard, n: counts}
+	}
 	var f8 []Exec // representatives collected by F1/F2/F3 for the tester path
 	if famEnabled("F1") {
 		f8 = append(f8, genF1(g, mk("F1/assign", 150, 700))...)
